@@ -115,11 +115,11 @@ def run(ctx):
         models = [("3 tables, lengths 0..4, all modes", _cfg(3, 4, W3, R4, 3))]
         bounds = {"model": "layouts of 1..3 tables, lengths 0..4, every k, 3 destination and 4 source modes, every need set"}
     else:
-        models = [("writers: 4 tables, lengths 0..6", _cfg(4, 6, W3, [], 3)),
+        models = [("writers: 4 tables, lengths 0..5", _cfg(4, 5, W3, [], 3)),
                   ("readers: 3 tables, lengths 0..6", _cfg(3, 6, [], R4, 4)),
-                  ("readers: 4 tables, lengths 0..2", _cfg(4, 2, [], R4, 1))]
-        bounds = {"model": "writers: 1..4 tables, lengths 0..6; readers: 1..3 tables, lengths 0..6 and 1..4 tables, "
-                           "lengths 0..2; every k, every mode, every need set"}
+                  ("readers: 4 tables, lengths 0..1", _cfg(4, 1, [], R4, 1))]
+        bounds = {"model": "writers: 1..4 tables, lengths 0..5; readers: 1..3 tables, lengths 0..6 and 1..4 tables, "
+                           "lengths 0..1; every k, every mode, every need set"}
     for label, cfg in models:
         res = ctx.tlc("IOFault", cfg="IOX.cfg", files={"IOX.cfg": cfg}, timeout=2400, label="IOFault exhaustive: " + label)
         if not res.ok:
